@@ -32,9 +32,26 @@ type inconclusive struct{ why string }
 
 type Violation struct {
 	Prop, Msg string
+	Sig       string // prop | msg | tags  (dedup / known-findings key)
+	Detail    string
 	Model     smt.Model
+	Replay    *ReplayModel
 	Prefix    []Dec
 	Panic     bool
+	Harness   string
+}
+
+func (in *Interp) addViolation(prop, msg string, m smt.Model, isPanic bool, detail string) {
+	sig := prop + " | " + msg
+	for _, t := range in.sigTags {
+		sig += " | " + t
+	}
+	v := Violation{Prop: prop, Msg: msg, Sig: sig, Detail: detail, Model: m, Prefix: append([]Dec{}, in.P.taken...), Panic: isPanic, Harness: in.HarnessName}
+	if m != nil || isPanic {
+		v.Replay = in.BuildReplay(m)
+		v.Replay.Expect = []string{sig}
+	}
+	in.Violations = append(in.Violations, v)
 }
 
 // PathState is the per-run exploration state.
@@ -247,7 +264,7 @@ func (in *Interp) Assert(prop string, cond *smt.Term, msg string) {
 	case smt.Unsat:
 		in.Stats.Discharged++
 	case smt.Sat:
-		in.Violations = append(in.Violations, Violation{Prop: prop, Msg: msg, Model: m, Prefix: append([]Dec{}, in.P.taken...)})
+		in.addViolation(prop, msg, m, false, "")
 		// continue under the assumption that cond holds, if possible
 		if ok, m2 := in.feasible(cond); ok {
 			in.assertPC(cond)
